@@ -39,7 +39,7 @@ def guard_signature(repo, c, m, f):
     return sig, ft, g
 
 
-def nan_discipline_inplace(f, g, fld):
+def nan_discipline_inplace(f, g, fld, repo=None):
     """Every store of a formula depending on other.<fld> into self.<fld> is guarded by self.entries != 0 and other.entries != 0."""
     sn, on = f.params
     tcd = g.transitive_control_deps()
@@ -66,6 +66,24 @@ def nan_discipline_inplace(f, g, fld):
     problems = []
     for n in stores:
         v = n.ast.value
+        # a local temporary (`lowest = minplus(self.min, other.min)` ... `self.min = lowest`) stands for its one definition
+        hops = 0
+        while isinstance(v, ast.Name) and hops < 3:
+            defs = [x.ast.value for x in g.nodes if x.kind == "stmt" and isinstance(x.ast, ast.Assign) and any(
+                isinstance(t, ast.Name) and t.id == v.id for t in x.ast.targets)]
+            if len(defs) != 1:
+                break
+            v = defs[0]
+            hops += 1
+        # helper form: a NaN-as-missing combiner applied to the two fields (decision table checked like in __add__, C01/R1.3)
+        if isinstance(v, ast.Call) and isinstance(v.func, ast.Name) and len(v.args) == 2 and \
+                {ast.unparse(a) for a in v.args} == {f"{sn}.{fld}", f"{on}.{fld}"} and repo is not None:
+            h = repo.resolve_name(f.module, v.func.id)
+            if hasattr(h, "node"):
+                from .c01 import helper_table, table_ok
+                smaller = fld.lower().startswith("min")
+                if (fld.lower().startswith("min") or fld.lower().startswith("max")) and not table_ok(helper_table(h), smaller):
+                    continue
         txt = ast.unparse(v)
         reads_other = f"{on}.{fld}" in txt
         reads_self = f"{sn}.{fld}" in txt or isinstance(n.ast, ast.AugAssign)
@@ -220,7 +238,7 @@ def run(repo, rep, tier):
             # NaN-initialised fields merged in place: same two-sided empty discipline as __add__ (R1.3): the general formula
             # may only run when BOTH sides are non-empty (an empty side carries NaN, and 0 * NaN is NaN)
             for fld in m.nan_fields:
-                okn, why = nan_discipline_inplace(f, g, fld)
+                okn, why = nan_discipline_inplace(f, g, fld, repo)
                 r1.ob(okn, f"{c.name}.__iadd__: NaN field {fld}: {why}")
                 if not okn:
                     rep.finding("R7.1", f, f.node, f"`{fld}` is NaN in an empty aggregator but the in-place merge {why}: `a += empty` (or "
